@@ -405,7 +405,9 @@ def execute_conditional(prop, scen):
                 # I4: at every conditioning value the evaluation equals the family's law with
                 # {fixed value, dependence-function values at g}
                 rng = np.random.default_rng(op["pseed"])
-                for g in list(centres[:2]) + [float(rng.uniform(centres[0], centres[-1]))]:
+                # conditioning values as float, Python int, numpy integer (all legal "given" values)
+                g_int = int(round(centres[1]))
+                for g in [centres[0], float(rng.uniform(centres[0], centres[-1])), g_int, np.int64(g_int + 1)]:
                     pv = {p: float(scen["fixed"][p]) for p in scen["fixed"]}
                     for p in free:
                         pv[p] = float(cond.conditional_parameters[p](g))
@@ -423,7 +425,7 @@ def execute_conditional(prop, scen):
                         got_q = np.asarray(cond.icdf(np.array([0.1, 0.5, 0.9]), given=g), dtype=float)
                     run.count("eval_comparisons", 2)
                     if not np.allclose(got, want, rtol=1e-9, atol=1e-12) or not np.allclose(got_q, want_q, rtol=1e-9, atol=1e-12):
-                        run.violate("I4-conditional-uses-fixed-value", f"{fam}/{'+'.join(sorted(scen['fixed']))}", {"given": g, "params_at_given": pv, "got": got[:4], "want": want[:4], "got_q": got_q, "want_q": want_q, "step": si})
+                        run.violate("I4-conditional-uses-fixed-value", f"{fam}/{'+'.join(sorted(scen['fixed']))}", {"given": float(g), "given_type": type(g).__name__, "params_at_given": pv, "got": got[:4], "want": want[:4], "got_q": got_q, "want_q": want_q, "step": si})
                         return run
                 run.event("eval", op, None)
                 continue
